@@ -469,6 +469,11 @@ fn sweeps(tier: Tier) -> Vec<Sweep> {
         // names DEFAULT only)
         if l.starts_with("0x") {
             cases.push(format!("DEFAULT 0 1 0\nSPACE 0 1 0\nAL 1 1 2\nKJ 0 0 2\nA 1 0 1\nB 0 1 1\n0x40..0x44 A B\n{l}\n").into_bytes());
+            // ... before a later, BROADER line that re-declares the same code points
+            cases.push(format!("DEFAULT 0 1 0\nSPACE 0 1 0\nAL 1 1 2\nKJ 0 0 2\nA 1 0 1\nB 0 1 1\n{l}\n0x40..0x44 B\n").into_bytes());
+            // ... after a line of the same category that it touches from below / overlaps
+            cases.push(format!("DEFAULT 0 1 0\nSPACE 0 1 0\nAL 1 1 2\nKJ 0 0 2\nA 1 0 1\nB 0 1 1\n0x42..0x44 A\n{l}\n").into_bytes());
+            cases.push(format!("DEFAULT 0 1 0\nSPACE 0 1 0\nAL 1 1 2\nKJ 0 0 2\nA 1 0 1\nB 0 1 1\n0x43..0x45 A\n{l}\n").into_bytes());
             // ... and after a HIGHER range line of the same category (descending line order)
             cases.push(format!("DEFAULT 0 1 0\nSPACE 0 1 0\nAL 1 1 2\nKJ 0 0 2\nA 1 0 1\nB 0 1 1\n0x50..0x52 A\n{l}\n0x60 A\n").into_bytes());
         }
